@@ -94,6 +94,7 @@ func refSendBody(sc Scn, src, dst fsmodel.Tree, destDir string, res *RefSendRes)
 	sorted.Sort()
 	return func(t *testing.T, s *Stepper, x *Exec) {
 		link := netsim.NewLink(sc.Cap)
+		link.PostYield = sc.PostYield
 		rctx, rcancel := context.WithCancel(context.Background())
 		defer rcancel()
 		sEnd := link.End("S", context.Background())
@@ -540,6 +541,16 @@ func driveC07(p *Pool, r *evid.Run) {
 			}
 		}
 	}
+	// names at the length limit, into an empty destination and over a prior destination that holds the same paths
+	for _, dst := range []string{"empty", "c7long-old"} {
+		for _, pol := range []string{"run", "recv"} {
+			scns = append(scns, Scn{Kind: "refsend", Src: "c7long", Dst: dst, Cap: 64, Policy: pol, SelectAlts: true})
+		}
+	}
+	// sends that return late, around the ordinary policies
+	for _, pol := range pols {
+		scns = append(scns, Scn{Kind: "refsend", Src: "c7tiny", Dst: "c7diff", Cap: 2, Policy: pol, SelectAlts: true, PostYield: true})
+	}
 	bound := 1
 	if !quick {
 		bound = 2
@@ -568,6 +579,11 @@ func driveC07(p *Pool, r *evid.Run) {
 				}
 			}
 			slow = append(slow, Scn{Kind: "refsend", Src: "c7tiny", Dst: "empty", Cap: 1, Policy: "slow:" + role, Variant: "seq", SelectAlts: true})
+			// ... and with stream sends that return late: the answer to a packet can be there before its sender
+			// has executed the statement after the send
+			for _, dst := range []string{"empty", "c7diff"} {
+				slow = append(slow, Scn{Kind: "refsend", Src: "c7tiny", Dst: dst, Cap: 64, Policy: "slow:" + role, SelectAlts: true, PostYield: true})
+			}
 		}
 		exploreAll(p, r, "C07", slow, 1, 0)
 		r.Add("scenarios", int64(len(slow)))
